@@ -64,3 +64,54 @@ package heuristic
 //@   loop 2 invariant forall(k, 0 <= k && k < badEnd, 0 <= bad[k] && bad[k] < i) && forall(k, 0 <= k && k < goodEnd, 0 <= good[k] && good[k] < i)
 //@   loop 2 invariant forall(k, 0 <= k && k < len(textBlocks), textBlocks[k] != nil) && forall(k, 0 <= k && k < len(canonicalReps), canonicalReps[k] != nil)
 //@   loop 2 invariant freshslice(bad) && freshslice(good) && disjoint(bad, good) && disjoint(bad, canonicalReps) && disjoint(good, canonicalReps) && textBlocks == old(doc.TextBlocks)
+
+// ---- fusion filters (C01: index safety of in-place removal from the block list) ----
+// blocksOK(doc): doc and all its blocks are non-nil, element lists do not share the block list's row.
+
+//@ func (*BlockProximityFusion).Process(doc)
+//@   requires f != nil && blocksOK(doc)
+//@   ensures blocksOK(doc)
+//@   loop 0 invariant 1 <= i && i <= len(textBlocks) && len(textBlocks) >= 1 && prevBlock != nil && doc != nil
+//@   loop 0 invariant inheap(textBlocks)
+//@   loop 0 invariant forall(k, 0 <= k && k < len(textBlocks), textBlocks[k] != nil)
+//@   loop 0 invariant forall(k, 0 <= k && k < len(textBlocks), inheap(textBlocks[k].TextElements))
+//@   loop 0 invariant forall(k, 0 <= k && k < len(textBlocks), disjoint(textBlocks, textBlocks[k].TextElements))
+//@   loop 0 invariant inheap(prevBlock.TextElements) && disjoint(textBlocks, prevBlock.TextElements)
+//@   loop 0 invariant samerow(textBlocks, old(doc.TextBlocks))
+//@   loop 0 decreases len(textBlocks) - i
+
+//@ func (*HeadingFusion).Process(doc)
+//@   requires f != nil && blocksOK(doc)
+//@   ensures blocksOK(doc)
+//@   loop 0 invariant 1 <= i && i <= len(textBlocks) && len(textBlocks) >= 1 && blocksOKs(textBlocks) && currentBlock != nil && doc != nil && inheap(currentBlock.TextElements) && disjoint(textBlocks, currentBlock.TextElements)
+//@   loop 0 invariant samerow(textBlocks, old(doc.TextBlocks))
+//@   loop 0 decreases len(textBlocks) - i
+
+// ---- remaining heuristic filters: they only flip flags/labels of non-nil blocks ----
+
+//@ func (*ExpandTitleToContent).Process(doc)
+//@   requires f != nil && blocksOK(doc)
+//@   ensures blocksOK(doc)
+//@   loop 0 invariant blocksOK(doc) && doc.TextBlocks == old(doc.TextBlocks) && -1 <= title && title < len(doc.TextBlocks) && -1 <= contentStart && contentStart < len(doc.TextBlocks) && title <= ITER && contentStart <= ITER
+//@   loop 1 invariant blocksOK(doc) && doc.TextBlocks == old(doc.TextBlocks)
+
+//@ func (*LargeBlockAroundTagLevelToContent).Process(doc)
+//@   requires f != nil && blocksOK(doc)
+//@   ensures blocksOK(doc)
+//@   loop 0 invariant blocksOK(doc) && doc.TextBlocks == old(doc.TextBlocks)
+//@   loop 1 invariant blocksOK(doc) && doc.TextBlocks == old(doc.TextBlocks)
+
+//@ func (*ListAtEnd).Process(doc)
+//@   requires f != nil && blocksOK(doc)
+//@   ensures blocksOK(doc)
+//@   loop 0 invariant blocksOK(doc) && doc.TextBlocks == old(doc.TextBlocks)
+
+//@ func (*KeepLargestBlock).Process(doc)
+//@   requires f != nil && blocksOK(doc)
+//@   loop 0 invariant blocksOKs(textBlocks) && textBlocks == old(doc.TextBlocks) && -1 <= largestBlockIndex && largestBlockIndex < len(textBlocks) && implies(largestBlockIndex != -1, largestBlock != nil && largestBlock == textBlocks[largestBlockIndex])
+//@   loop 1 invariant blocksOKs(textBlocks) && textBlocks == old(doc.TextBlocks) && -1 <= largestBlockIndex && largestBlockIndex < len(textBlocks) && implies(largestBlockIndex != -1, largestBlock != nil && largestBlock == textBlocks[largestBlockIndex])
+
+//@ func (*DocumentTitleMatch).Process(doc)
+//@   requires f != nil && blocksOK(doc)
+//@   ensures blocksOK(doc)
+//@   loop 0 invariant blocksOK(doc) && doc.TextBlocks == old(doc.TextBlocks) && f != nil
